@@ -6,28 +6,28 @@ package main
 func init() {
 	property(&Property{
 		ID:          "C01",
-		Rules:       []string{"STOP-SET", "LITERAL-COMPARE", "OFFSET-BASE", "KEY-AGREE", "PATTERN-VERB", "VERB-KEY", "LEAF-EXHAUSTED", "VARS-ONLY", "PATH-NORMALISE", "PATH-SOURCE", "SEP-CHECK"},
+		Rules:       []string{"STOP-SET", "LITERAL-COMPARE", "OFFSET-BASE", "KEY-AGREE", "PATTERN-VERB", "VERB-KEY", "LEAF-EXHAUSTED", "VARS-ONLY", "PATH-NORMALISE", "PATH-SOURCE", "SEP-CHECK", "KIND-VALUE-AGREE", "KIND-EXHAUSTIVE"},
 		Decides:     "Decides the comparisons and tables every sound matcher must contain: literal edges are followed by the same key they were created with; a variable pattern's literal arm rejects on kind or text mismatch; '*' stops at '/' and ':' and '**' at ':' only; each HttpRule pattern case maps to the HTTP method of the same name and the leaf lookup is keyed by the request's verb; a method is returned only when nothing but the end marker is left; captured text is bound only to the fields the template names; capture lengths use the right base.",
 		NotDecided:  "that a matching path is matched only by covering templates in general (lexer character classes, ':' handling, capture text equality, numeric conversion results, trailing-slash normalisation) - i.e. the behavioural statement itself.",
 		Assumptions: commonAssumptions,
 	})
 	property(&Property{
 		ID:          "C02",
-		Rules:       []string{"LITERAL-FIRST", "BACKTRACK", "STOP-SET", "SORTED-VARS", "NO-MAP-ORDER", "OFFSET-BASE"},
+		Rules:       []string{"LITERAL-FIRST", "BACKTRACK", "STOP-SET", "SORTED-VARS", "NO-MAP-ORDER", "OFFSET-BASE", "PATH-CHARSET"},
 		Decides:     "Decides the structural guarantees of the matcher's shape for every rule set and path: the literal edge is tried before any variable and wins if it succeeds; a failed sub-search never aborts the search (only a conversion failure does); variables are kept sorted by a strict order on a key that depends on the pattern only; nothing on the matching path ranges over a map; capture lengths are computed against the right base.",
 		NotDecided:  "that every instantiation of every template matches (value-level: lexer character classes, token cap, '**' stopping at the first ':'); order independence of registration (duplicate detection, delRule).",
 		Assumptions: commonAssumptions,
 	})
 	property(&Property{
 		ID:          "C03",
-		Rules:       []string{"KIND-EXHAUSTIVE", "KIND-VALUE-AGREE", "WKT-TABLE", "BYTES-ALPHABETS", "NAME-RESOLUTION", "FIELDPATH-SINGULAR", "DECODE-THEN-PARAMS", "DESC-ROLE", "DECOMP-AGREE"},
+		Rules:       []string{"KIND-EXHAUSTIVE", "KIND-VALUE-AGREE", "WKT-TABLE", "BYTES-ALPHABETS", "NAME-RESOLUTION", "FIELDPATH-SINGULAR", "DECODE-THEN-PARAMS", "DESC-ROLE", "DECOMP-AGREE", "B64-BUF"},
 		Decides:     "Decides that the per-kind conversion table is complete and type-correct against protoreflect's Kind/Value contract, that well-known types are listed and unmarshalled into their own type, that the bytes arm reaches all four base64 variants, that names resolve by JSON name then proto name, that field paths only walk singular message fields, that body/query/path resolution uses the request descriptor, that decompression and codec selection follow the request headers, and that parameters are applied after the body.",
 		NotDecided:  "that converted values equal the proto3 JSON reading (null, NaN, whitespace, base64 details), the round-trip law itself, codec behaviour.",
 		Assumptions: commonAssumptions,
 	})
 	property(&Property{
 		ID:          "C04",
-		Rules:       []string{"DESC-ROLE", "FIELDPATH-SINGULAR", "RESP-APPLIED", "CT-AGREE", "CE-AGREE", "OFFERS-AGREE", "MD-RESERVED-TABLE", "POOL-FOREIGN"},
+		Rules:       []string{"DESC-ROLE", "FIELDPATH-SINGULAR", "RESP-APPLIED", "CT-AGREE", "CE-AGREE", "OFFERS-AGREE", "MD-RESERVED-TABLE", "POOL-FOREIGN", "NEGOTIATE-ADMITS"},
 		Decides:     "Decides that the header naming the body's type/encoding and the codec/compressor that produced the body are chosen by the same value on every path, that response_body is resolved with its own selector against the reply type and applied on send, that offers come from the very codec map that is indexed, and that handler metadata cannot override Content-Type/Content-Encoding.",
 		NotDecided:  "negotiation results for concrete Accept strings; marshalled bytes; whether compression is ever offered.",
 		Assumptions: commonAssumptions,
@@ -41,7 +41,7 @@ func init() {
 	})
 	property(&Property{
 		ID:          "C06",
-		Rules:       []string{"ENCODER-CLOSE", "CARRY-OVER", "FRAME-AGREE", "READFULL-EOF"},
+		Rules:       []string{"ENCODER-CLOSE", "CARRY-OVER", "FRAME-AGREE", "READFULL-EOF", "FWD-CLOSESEND"},
 		Decides:     "Decides only three structural necessary conditions of 'no lost byte': the gRPC-web-text byte stream is terminated; bytes a stream codec read past the current message are saved on every path and handed to the next read; the gRPC frame writer and reader (and the gRPC-web trailer frame) agree on header length, offsets and byte order.",
 		NotDecided:  "and this is most of the property: sequence equality, fragmentation invariance, truncation behaviour, phantom/dropped messages at EOF, WebSocket end-of-stream.",
 		Assumptions: commonAssumptions,
@@ -62,7 +62,7 @@ func init() {
 	})
 	property(&Property{
 		ID:          "C09",
-		Rules:       []string{"PANIC-REACH-SERVE", "COMMAOK-SERVE", "ASSERT-CHECKED", "TABLE-GUARD", "SIGNCONV", "OFFSET-BASE", "FIELDPATH-SINGULAR", "TOKEN-KINDS", "NIL-MAP-WRITE", "STATS-PURE", "SLICE-CAP", "NILABLE-FIELD", "FD-LOCAL", "CODEC-LOOKUP-TOTAL"},
+		Rules:       []string{"PANIC-REACH-SERVE", "COMMAOK-SERVE", "ASSERT-CHECKED", "TABLE-GUARD", "SIGNCONV", "OFFSET-BASE", "FIELDPATH-SINGULAR", "TOKEN-KINDS", "NIL-MAP-WRITE", "STATS-PURE", "SLICE-CAP", "NILABLE-FIELD", "FD-LOCAL", "CODEC-LOOKUP-TOTAL", "NIL-STATE", "B64-BUF"},
 		Decides:     "Decides the absence, on every call-graph path from the request entry points, of the enumerated crash constructs: explicit panic, use of a comma-ok result where ok may be false, unjustified single-result type assertions, off-by-one table guards, sign-changing conversions of wire lengths, index-relative-to-wrong-base arithmetic, field paths walking through repeated/map/scalar fields, pattern tokens the matcher panics on, writes through nil maps, stats-only slicing.",
 		NotDecided:  "general slice/index arithmetic, nil dereferences beyond the comma-ok class, termination, resource exhaustion, panics inside dependencies beyond the encoded contracts.",
 		Assumptions: commonAssumptions,
@@ -76,7 +76,7 @@ func init() {
 	})
 	property(&Property{
 		ID:          "C11",
-		Rules:       []string{"WRITER-PUBLISHES", "ADD-REMOVE-SYMMETRY", "REMOVE-FILTER", "PICK-CURRENT", "COW-6", "STORED-SLICE-REUSE", "FD-LOCAL", "DELRULE-GUARD"},
+		Rules:       []string{"WRITER-PUBLISHES", "ADD-REMOVE-SYMMETRY", "REMOVE-FILTER", "PICK-CURRENT", "COW-6", "STORED-SLICE-REUSE", "FD-LOCAL", "DELRULE-GUARD", "NIL-STATE", "DESC-BY-NAME"},
 		Decides:     "Decides that every operation that changes the registration set publishes it, that removal empties what registration fills and keeps exactly the handlers of other connections, that dropping an unknown connection changes nothing, and that dispatch reads one current snapshot and answers Unimplemented exactly when no handler is left.",
 		NotDecided:  "behaviour over histories (stale routes answering Unimplemented, which backend answers).",
 		Assumptions: commonAssumptions,
@@ -90,14 +90,14 @@ func init() {
 	})
 	property(&Property{
 		ID:          "C13",
-		Rules:       []string{"POOL-TYPE", "POOL-RESET", "POOL-ESCAPE", "POOL-UAP", "POOL-ONCE", "OPTS-RO", "GO-SHARED", "SENDRECV-DISJOINT", "PER-REQUEST-FRESH", "POOL-FOREIGN", "CLOSE-ONCE"},
+		Rules:       []string{"POOL-TYPE", "POOL-RESET", "POOL-ESCAPE", "POOL-UAP", "POOL-ONCE", "OPTS-RO", "GO-SHARED", "SENDRECV-DISJOINT", "PER-REQUEST-FRESH", "POOL-FOREIGN", "CLOSE-ONCE", "MD-OWNED"},
 		Decides:     "Decides the ownership discipline of everything shared between requests: pooled objects are typed, reset before use, never escape into messages/fields/goroutines, are not used after being returned and are returned at most once; options are read-only on serving paths; what a spawned pump shares is read only after its join and it never touches the response side; the send and receive halves of a stream touch disjoint state; stream objects and lexers are per-request allocations.",
 		NotDecided:  "absence of races in general (no lockset analysis of stream fields across handler-spawned goroutines), byte-level isolation, user codecs that alias their input.",
 		Assumptions: commonAssumptions,
 	})
 	property(&Property{
 		ID:          "C14",
-		Rules:       []string{"MD-GATE-OUT", "MD-GATE-IN", "MD-RESERVED-TABLE", "BIN-PADDING", "IDENT-BRANCH", "TRAILER-PHASE", "STS-ROUTING", "WEB-TRAILER-FRAME"},
+		Rules:       []string{"MD-GATE-OUT", "MD-GATE-IN", "MD-RESERVED-TABLE", "BIN-PADDING", "IDENT-BRANCH", "TRAILER-PHASE", "STS-ROUTING", "WEB-TRAILER-FRAME", "MD-OWNED"},
 		Decides:     "Decides that every conversion between headers and metadata, in either direction, filters reserved keys and transforms '-bin' values, lower-cases keys and keeps all values; that the reserved set covers every key the transport itself writes on a response; that both base64 padding variants are accepted; that trailer-phase header writes can reach the wire; and that the ServerTransportStream wrapper routes header/trailer calls to the stream.",
 		NotDecided:  "byte-exactness for arbitrary values, HTTP/2 header canonicalisation, WebSocket metadata.",
 		Assumptions: commonAssumptions,
@@ -111,7 +111,7 @@ func init() {
 	})
 	property(&Property{
 		ID:          "C16",
-		Rules:       []string{"PANIC-REACH-REG", "COMMAOK-REG", "TOKEN-KINDS", "COW-7", "COW-3", "COW-5", "SLOT-CHECK", "FIELDPATH-SINGULAR", "ADDITIONAL-BINDINGS"},
+		Rules:       []string{"PANIC-REACH-REG", "COMMAOK-REG", "TOKEN-KINDS", "COW-7", "COW-3", "COW-5", "SLOT-CHECK", "FIELDPATH-SINGULAR", "ADDITIONAL-BINDINGS", "NIL-STATE", "DESC-BY-NAME"},
 		Decides:     "Decides the 'rejects ... with an error (never a panic) and leaves previously registered routes intact' half: no panic or unchecked comma-ok use is reachable from the registration roots, pattern tokens are validated, a failed registration publishes nothing and works on a private clone, a binding slot is written only after the conflict check, body/response_body selectors must name singular message fields, nested additional bindings are rejected before recursion.",
 		NotDecided:  "the 'accepts every well-formed template' half (grammar conformance is value-level: e.g. one-letter literals are rejected today).",
 		Assumptions: commonAssumptions,
